@@ -31,7 +31,8 @@ EXPLANATION = (
     "and calls no mutator (no verdict memo), action_mask writes only mask entries, every simulator pre_timestep (which "
     "runs between mask and action) and its helpers store no attribute a permission rule reads and call no life-cycle "
     "operation, and PrimaiteGymEnv.step applies the actions before advancing time; R11.6 no sub-tree is registered through a forwarding "
-    "callable (`func=<component>.apply_request`): the dry run descends into RequestManager objects only. NOT decided: agreement as a run-time behaviour in every transitional state (follows from "
+    "callable (`func=<component>.apply_request`): the dry run descends into RequestManager objects only. R11.7 = C15's R15.10 (name look-ups prefer the live item over a deleted namesake) applied here. "
+    "NOT decided: agreement as a run-time behaviour in every transitional state (follows from "
     "R11.1 given validators are pure state predicates, R5.3)."
 )
 TECHNIQUE = "static: exhaustive truth table of check_valid vs __call__ over (key, validator, sub-manager, sub-tree), structural check of mask construction, validator predicate tables"
@@ -554,3 +555,7 @@ def check(ctx: Ctx) -> None:
     r11_6(ctx)
     r11_4(ctx)
     r11_3(ctx, armed=True)
+    # "unavailable exactly when the folder is missing or deleted": the not-deleted rules look the item up by name - C15's R15.10
+    from . import c15
+    with ctx.borrowed({"R15.10": "R11.7"}):
+        c15.r15_10(ctx)
